@@ -113,6 +113,31 @@ Theorem C14_prefix_without_trailer_rejected : forall (M : Type) (decode : list b
   ~ valid_trailer M decode p -> exists e, open_file M decode has_key p = OpenErr e.
 Proof. exact prefix_without_trailer_rejected. Qed.
 
+(** The same under the file options that change how OpenFile reads the ends of
+    the file: SkipMagicBytes (no header stage), OptimisticRead with any
+    ReadBufferSize (one read of min(ReadBufferSize, L) >= 8 bytes of the tail,
+    a footer inside it is not read again).  The options that act after the
+    footer was decoded (SkipPageIndex, SkipBloomFilters, PrefetchBloomFilters,
+    read mode) do not change the open stages.  Without SkipMagicBytes the
+    verdict is the one of the default configuration. *)
+Theorem C14_prefix_rejected_under_options : forall (M : Type) (decode : list byte -> option M)
+    skip_magic optimistic rbs has_key f p q,
+  f = p ++ q -> q <> [] ->
+  (exists e, open_file_cfg M decode skip_magic optimistic rbs has_key p = OpenErr e) \/
+  (exists m', open_file_cfg M decode skip_magic optimistic rbs has_key p = OpenOk m' /\ valid_trailer M decode p /\
+     (forall rs, (exists off len, In (off, len) rs /\ 0 < len /\ flen p < off + len) -> read_all p rs = None) /\
+     (forall off len, off + len <= flen p -> read_range p off len = RdOk (slice f off len))).
+Proof. exact prefix_rejected_cfg. Qed.
+
+Theorem C14_prefix_without_trailer_rejected_under_options : forall (M : Type) (decode : list byte -> option M)
+    skip_magic optimistic rbs has_key p,
+  ~ valid_trailer M decode p -> exists e, open_file_cfg M decode skip_magic optimistic rbs has_key p = OpenErr e.
+Proof. exact prefix_without_trailer_rejected_cfg. Qed.
+
+Theorem C14_optimistic_read_same_verdict : forall (M : Type) optimistic rbs has_key L hdr tail decode_at,
+  open_core_cfg M false optimistic rbs has_key L hdr tail decode_at = open_core M has_key L hdr tail decode_at.
+Proof. exact open_core_cfg_tail_stages. Qed.
+
 (** A column chunk (pages = (header length, body length)) whose source ends
     before the chunk does (anywhere: inside a header or a body, exactly between
     two pages, exactly between a header and its body) never ends with a plain
@@ -131,6 +156,9 @@ Print Assumptions C14_readat_never_masks.
 Print Assumptions C14_file_readat_never_masks.
 Print Assumptions C14_prefix_rejected.
 Print Assumptions C14_prefix_without_trailer_rejected.
+Print Assumptions C14_prefix_rejected_under_options.
+Print Assumptions C14_prefix_without_trailer_rejected_under_options.
+Print Assumptions C14_optimistic_read_same_verdict.
 Print Assumptions C14_chunk_early_end_reported.
 Print Assumptions C14_chunk_complete_read.
 
@@ -235,6 +263,24 @@ Proof. vm_compute. reflexivity. Qed.
 Example C14_ex_planted_trailer :
   open_file unit ex_decode false (magic_par1 ++ [7; 7; 7; 2; 0; 0; 0] ++ magic_par1) = OpenErr OFooterDecode.
 Proof. vm_compute. reflexivity. Qed.
+
+(* every strict prefix of the example image is rejected under the options too:
+   SkipMagicBytes x OptimisticRead x ReadBufferSize 1, 8, 9, 16, 4096; the whole
+   image opens under all of them; the 5-byte prefix (shorter than the 8 bytes of
+   length + magic) is a short tail read also with OptimisticRead *)
+Example C14_ex_prefixes_rejected_under_options :
+  forallb (fun '(sm, o, rbs) =>
+    forallb (fun n => match open_file_cfg unit ex_decode sm o rbs false (firstn n ex_image) with OpenErr _ => true | OpenOk _ => false end)
+            (seq 0 (length ex_image)) &&
+    match open_file_cfg unit ex_decode sm o rbs false ex_image with OpenOk _ => true | OpenErr _ => false end)
+    (list_prod (list_prod [false; true] [false; true]) [1; 8; 9; 16; 4096]) = true.
+Proof. vm_compute. reflexivity. Qed.
+
+Example C14_ex_optimistic_short_tail :
+  open_file_cfg unit ex_decode false true 4096 false (firstn 5 ex_image) = OpenErr OShortTail /\
+  open_file_cfg unit ex_decode true true 4096 false (firstn 3 ex_image) = OpenErr OShortTail /\
+  tail_read_size true 4096 5 = 8 /\ tail_read_size true 4096 69 = 69 /\ tail_read_size true 16 69 = 16.
+Proof. vm_compute. repeat split; reflexivity. Qed.
 
 Example C14_ex_readat_contract : readerat_ok 10 (4, REOF) /\ readat_wrap 10 (4, REOF) = (4, REOF) /\
                                  readat_wrap 10 (10, REOF) = (10, RNone).
